@@ -123,6 +123,22 @@ macro_rules! add_fx {
 				EqFilterBuilder::new([EqFilterKind::Bell, EqFilterKind::LowShelf, EqFilterKind::HighShelf][l % 3], HZ[l % 6], Decibels(DBS[l % 4]), [0.0, 0.5, 1.0, 100.0][l % 4]),
 			))),
 			7 => $fx.push(Fx::Vol(b.add_effect(VolumeControlBuilder::new(Decibels(DBS[l % 6]))))),
+			// a delay with an effect in its feedback loop: another delay / a filter / a reverb (only reached by the directed grid)
+			9 | 10 | 11 => {
+				let mut d = DelayBuilder::new().delay_time(Duration::from_nanos(DURS_NS[1 + l % 3])).feedback(Decibels(DBS[1 + l % 3])).mix(Mix(0.5));
+				match $kind {
+					9 => {
+						d.add_feedback_effect(DelayBuilder::new().delay_time(Duration::from_nanos(DURS_NS[2 + l % 2])));
+					}
+					10 => {
+						d.add_feedback_effect(FilterBuilder::new().cutoff(HZ[2 + l % 4]));
+					}
+					_ => {
+						d.add_feedback_effect(ReverbBuilder::new());
+					}
+				}
+				$fx.push(Fx::Delay(b.add_effect(d)));
+			}
 			_ => $fx.push(Fx::Pan(b.add_effect(PanningControlBuilder(KValue::Fixed(Panning(PANS[l % 5])))))),
 		}
 		b
@@ -192,7 +208,7 @@ fn do_step(s: &mut Sess, step: &Value) -> Option<Value> {
 		}
 		"add_track" => {
 			let b = TrackBuilder::new().volume(Decibels(DBS[p(step, 2) % 6])).persist_until_sounds_finish(p(step, 3) % 2 == 1);
-			let b = add_fx!(b, p(step, 0) % 9, p(step, 1), s.o.fx);
+			let b = add_fx!(b, p(step, 0) % 12, p(step, 1), s.o.fx);
 			let b = match s.o.sends.last() {
 				Some(sd) if p(step, 4) % 2 == 1 => b.with_send(sd, Decibels(DBS[p(step, 5) % 6])),
 				_ => b,
@@ -206,7 +222,7 @@ fn do_step(s: &mut Sess, step: &Value) -> Option<Value> {
 			}
 		}
 		"add_send" => {
-			let b = add_fx!(SendTrackBuilder::new().volume(Decibels(DBS[p(step, 2) % 6])), p(step, 0) % 9, p(step, 1), s.o.fx);
+			let b = add_fx!(SendTrackBuilder::new().volume(Decibels(DBS[p(step, 2) % 6])), p(step, 0) % 12, p(step, 1), s.o.fx);
 			if let Ok(h) = s.sim.manager.add_send_track(b) {
 				s.o.sends.push(h);
 			}
@@ -461,8 +477,8 @@ fn compressor_ratio_zero(sc: &Value) -> bool {
 	let mut last_is_comp = false;
 	for st in sc["steps"].as_array().unwrap() {
 		match st["act"].as_str().unwrap() {
-			"add_track" | "add_send" if p(st, 0) % 9 != 0 => {
-				last_is_comp = p(st, 0) % 9 == 4;
+			"add_track" | "add_send" if p(st, 0) % 12 != 0 => {
+				last_is_comp = p(st, 0) % 12 == 4;
 				if last_is_comp && p(st, 1) % 4 == 2 {
 					return true;
 				}
